@@ -253,7 +253,9 @@ func boundViolation(ts []int64, eps float32, burst int) (bool, string) {
 	rateR := new(big.Rat).SetFloat64(float64(eps))
 	slack := big.NewRat(1, 1_000_000)
 	for i := range ts {
-		for j := i; j < len(ts); j++ {
+		// intervals ending at the newest admitted event; earlier ones were checked when their
+		// last event was admitted
+		for j := len(ts) - 1; j < len(ts); j++ {
 			n := big.NewRat(int64(j-i+1), 1)
 			el := big.NewRat(ts[j]-ts[i], 1_000_000_000)
 			bound := new(big.Rat).Add(big.NewRat(int64(burst), 1), new(big.Rat).Mul(rateR, el))
@@ -370,7 +372,7 @@ func TestVerif(t *testing.T) {
 		}
 		plans := []plan{{4, []int{0, 1, 2}, ""}}
 		if r.Thorough() {
-			plans = []plan{{5, []int{0, 1, 2}, ""}, {4, []int{0, 1, 2, 3, 4}, "-5addrs"}}
+			plans = []plan{{5, []int{0, 1, 2}, ""}, {3, []int{0, 1, 2, 3, 4}, "-5addrs"}}
 		}
 		for _, pl := range plans {
 			for _, c := range qcfgs {
